@@ -12,8 +12,11 @@ func init() {
 		in := fs.String("in", "", "histories ndjson")
 		out := fs.String("out", "", "trace ndjson")
 		reps := fs.Int("reps", 1, "repetitions of each history")
+		procs := fs.Int("procs", 1, "number of fresh process images the histories are spread over")
+		from := fs.Int("from", 0, "first history (child mode)")
+		to := fs.Int("to", -1, "one past the last history (child mode)")
 		_ = fs.Parse(args)
-		return graphfam.RunNodeGraph(*in, *out, *reps)
+		return graphfam.RunNodeGraph(*in, *out, *reps, *procs, *from, *to)
 	}
 	commands["ng-random"] = func(args []string) error {
 		fs := flag.NewFlagSet("ng-random", flag.ExitOnError)
